@@ -92,10 +92,9 @@ class Ctx:
             bad = grep_gate()
             self.obligation('no Admitted/Axiom/Parameter/unset checks anywhere in coq/', not bad, '; '.join(bad))
             ok &= not bad
-            if not os.path.exists(os.path.join(COQ, 'Makefile')) or os.path.getmtime(os.path.join(COQ, 'Makefile')) < os.path.getmtime(os.path.join(COQ, '_CoqProject')):
-                sh('coq_makefile -f _CoqProject -o Makefile', cwd=COQ, timeout=60)
+            make_makefile()
             for t in targets:
-                rc, out, err, dt = sh(['make', '-j', str(NPROC), t], cwd=COQ, timeout=COQ_TIMEOUT)
+                rc, out, err, dt = sh(['make', '-f', 'Makefile.verif', '-j', str(NPROC), t], cwd=COQ, timeout=COQ_TIMEOUT)
                 self.obligation(f'coqc:{t}', rc == 0, (out + err))
                 self.stats[f'build_s:{t}'] = round(dt, 1)
                 ok &= rc == 0
@@ -234,6 +233,24 @@ class Ctx:
                 print(f"  failure[{f['kind']}]: {f['desc'][:400]}")
         sys.stdout.flush()
         return 1 if viol else 0
+
+
+def make_makefile():
+    """Makefile.verif from the files of _CoqProject that exist (a missing or half-registered file of one property
+    must not stop the build of another); regenerated only when the file list changes"""
+    lines = [l.strip() for l in open(os.path.join(COQ, '_CoqProject')) if l.strip()]
+    keep, seen = [], set()
+    for l in lines:
+        if l.endswith('.v'):
+            if l in seen or not os.path.exists(os.path.join(COQ, l)):
+                continue
+            seen.add(l)
+        keep.append(l)
+    txt = '\n'.join(keep) + '\n'
+    fp = os.path.join(COQ, '_CoqProject.verif')
+    if not os.path.exists(fp) or open(fp).read() != txt or not os.path.exists(os.path.join(COQ, 'Makefile.verif')):
+        open(fp, 'w').write(txt)
+        sh('coq_makefile -f _CoqProject.verif -o Makefile.verif', cwd=COQ, timeout=60)
 
 
 _known = None
